@@ -134,6 +134,64 @@ def fixed_programs():
     return out
 
 
+EXACT = {
+    "serial": ("@constexpr\ndef serial(k):\n    return 2 ** 53 + k\n", ["serial(0)", "serial(1)", "serial(3)", "serial(-1)", "serial(2 ** 53 + 5)"]),
+    "pack2": ("@constexpr\ndef pack2(a, b):\n    return (HASH(a) & 0xFFFFFFFF) << 32 | (HASH(b) & 0xFFFFFFFF)\n", ['pack2("ItemIronIngot", "ItemCopperIngot")', 'pack2("a", "b")']),
+    "small": ("@constexpr\ndef small(k):\n    return k * 1000 + 7\n", ["small(12)", "small(-12)", "small(0)"]),
+    "shift": ("@constexpr\ndef shift(k):\n    return (1 << k) + 1\n", ["shift(31)", "shift(32)", "shift(52)", "shift(53)", "shift(60)", "shift(63)"]),
+}
+
+
+def exact_literal_obligations():
+    """The literal printed for an integer constexpr result is that integer, digit for digit (the chip
+    rounds above 2^53, the text must not): direct operand use in main code and inside a function body."""
+    import zlib
+
+    rows, n = [], 0
+
+    def hs(txt):
+        v = zlib.crc32(txt.encode())
+        return v - 2**32 if v >= 2**31 else v
+
+    for name, (fn, calls) in EXACT.items():
+        env = {"HASH": hs, "constexpr": lambda f: f}
+        exec(fn, env)
+        want = [eval(c, env) for c in calls]
+        src = HDR + fn + "\ndef user(q):\n    d5.Setting = q + " + calls[-1] + "\n\n" + "".join(f"d{i % 5}.Setting = {c}\n" for i, c in enumerate(calls)) + "user(d0.On)\nuser(1)\n"
+        cap = None
+        for _ in range(3):
+            cap = comp.compile_capture(src, append_version=False)
+            if cap.ok or "Timeout during evaluating constexpr" not in (cap.error or ""):
+                break
+        if not cap.ok:
+            rows.append(dict(kind="exact_literal", detail=f"{name}: rejected: {(cap.error or '')[:120]}"))
+            continue
+        stores = [l.split() for l in cap.code.split("\n") if l.split()[:1] == ["s"] and len(l.split()) == 4 and l.split()[1] != "d5"]
+        lits = [t[3] for t in stores]
+        adds = [t for t in (l.split() for l in cap.code.split("\n")) if t[:1] == ["add"]]
+        for c, w, lit in zip(calls, want, lits):
+            n += 1
+            try:
+                got = int(lit[1:], 16) if lit.startswith("$") else int(lit)
+            except ValueError:
+                rows.append(dict(kind="exact_literal", detail=f"{c}: emitted {lit!r}, Python returns {w}"))
+                continue
+            if got != w:
+                rows.append(dict(kind="exact_literal", detail=f"{c}: emitted {lit} = {got}, Python returns {w}"))
+        if adds:
+            n += 1
+            ops = [o for o in adds[-1][2:] if not ic10.REG_RE.match(o)]
+            if ops:
+                lit = ops[0]
+                try:
+                    got = int(lit[1:], 16) if lit.startswith("$") else int(lit)
+                    if got != want[-1]:
+                        rows.append(dict(kind="exact_literal", detail=f"{calls[-1]} inside a function body: emitted {lit} = {got}, Python returns {want[-1]}"))
+                except ValueError:
+                    rows.append(dict(kind="exact_literal", detail=f"{calls[-1]} inside a function body: emitted {lit!r}"))
+    return n, rows
+
+
 WITNESS_LIB_INTERNAL = {
     "": HDR + "from library import lib\nlib.apply(d0.On)\nlib.apply(2)\n",
     "lib": HDR + "@constexpr\ndef lc(a):\n    return a * 2\n\ndef apply(v):\n    d3.Setting = v + lc(4)\n",
@@ -269,6 +327,11 @@ def run(tier: str) -> int:
                 continue
             path = e1.save_replay(PROP, dict(property=PROP, kind="src_vs_ic10", name=spec["name"], sources=spec["sources"], opts=spec.get("opts"), result=r))
             rep.violation(f"{spec['name']} {spec.get('opts')}: {b}", path)
+    _lift_child_timeout()
+    n_exact, exact_rows = exact_literal_obligations()
+    for row in exact_rows[:5]:
+        path = e1.save_replay(PROP, dict(property=PROP, kind="table_row", row=row))
+        rep.violation(f"literal of an integer constexpr result: {row['detail']}", path)
     forb = {}
     for kname, src in FORBIDDEN.items():
         cap = comp.compile_capture(src, append_version=False)
@@ -283,6 +346,7 @@ def run(tier: str) -> int:
         samples=[dict(name=items[0]["name"], source=items[0]["sources"])],
         by_status=base.count_by(results),
         forbidden_bodies=forb,
+        exact_integer_literals_compared=n_exact,
         paths=tot["paths"], queries=tot,
         bounds=e1.bounds_for(tier).as_dict(),
         exhaustive=False,
